@@ -49,6 +49,7 @@ var guardTable = []guardSpec{
 	{"core/rlwe.(Evaluator).CheckAndGetRelinearizationKey", []string{"EvaluationKeySet", "nil"}, []token.Token{token.NEQ, token.EQL}, []string{"C05", "C06", "C04"}, "nil key set is an error, not a dereference"},
 	{"multiparty.(GaloisKeyGenProtocol).AggregateShares", []string{"share1.GaloisElement", "share2.GaloisElement"}, []token.Token{token.NEQ}, []string{"C14"}, "shares for different Galois elements must not be combined"},
 	{"multiparty.(EvaluationKeyGenProtocol).AggregateShares", []string{"share1.LevelQ()", "share2.LevelQ()"}, []token.Token{token.NEQ}, []string{"C14"}, "shares at different levels must not be combined"},
+	{"multiparty.(EvaluationKeyGenProtocol).AggregateShares", []string{"share1.BaseTwoDecomposition", "share2.BaseTwoDecomposition"}, []token.Token{token.NEQ}, []string{"C14"}, "shares with different digit decompositions must not be combined (property: 'mismatched shares (different Galois element, level or decomposition) are rejected')"},
 	{"multiparty.(EvaluationKeyGenProtocol).GenShare", []string{"BaseTwoDecompositionVectorSize()"}, nil, []string{"C14"}, "share and CRP must have the same digit decomposition"},
 }
 
